@@ -91,9 +91,45 @@ func BuildOverlay(repoDir, verifDir string, withTests bool, dirs ...string) (map
 		ov[filepath.Join(rd, "zz_verif_rt.go")] = []byte(strings.Replace(string(tmpl), "PKGNAME", pkgNames[d], 1))
 		if withTests {
 			ov[filepath.Join(rd, "zz_verif_replay_test.go")] = []byte(strings.Replace(replayTestSrc, "PKGNAME", pkgNames[d], 1))
+			// boundary files: the current source with its syscall selectors rewritten to the stubs
+			for _, name := range boundaryFiles[d] {
+				src, err := os.ReadFile(filepath.Join(rd, name))
+				if err != nil {
+					continue
+				}
+				ov[filepath.Join(rd, name)] = []byte(RewriteBoundary(string(src)))
+			}
 		}
 	}
 	return ov, nil
+}
+
+// boundaryFiles are compiled, for the native replay only, with their calls
+// into the operating system redirected to the harness stubs (the engine does
+// the same redirection by callee name).
+var boundaryFiles = map[string][]string{
+	"root": {"seccomp_linux.go"},
+}
+
+var boundaryRewrites = [][2]string{
+	{"syscall.Syscall6(", "vstubSyscall6("},
+	{"syscall.Syscall(", "vstubSyscall("},
+	{"syscall.RawSyscall6(", "vstubSyscall6("},
+	{"syscall.RawSyscall(", "vstubSyscall("},
+	{"runtime.LockOSThread(", "vstubLockOSThread("},
+	{"runtime.UnlockOSThread(", "vstubUnlockOSThread("},
+}
+
+// RewriteBoundary is the mechanical source rewrite used for native replays.
+func RewriteBoundary(src string) string {
+	for _, r := range boundaryRewrites {
+		src = strings.ReplaceAll(src, r[0], r[1])
+	}
+	// keep imports used
+	if strings.Contains(src, "\"runtime\"") && !strings.Contains(src, "runtime.") {
+		src += "\nvar _ = runtime.GOOS\n"
+	}
+	return src
 }
 
 const replayTestSrc = `package PKGNAME
